@@ -56,6 +56,16 @@ class FaultyStream:
     def flush(self):
         self._tick("f")
 
+    def writelines(self, lines):
+        for line in lines:
+            self.write(line)
+
+    def isatty(self):
+        return False
+
+    def writable(self):
+        return True
+
     def fileno(self):
         return self._null.fileno()
 
